@@ -815,7 +815,7 @@ func verifH_C02_schema_keywords() {
 	verifReach("end")
 }
 
-//verif:harness id=C02 tier=quick,thorough witness=end bounds="references whose JSON pointer goes into an object: 14 fragments (the first / last / only member of allOf, oneOf, anyOf and of a parameter list, properties/p, items, properties/p/items, additionalProperties, a parameter's schema, a response's and a request body's media type schema, a schema below an operation of a path) x in the root document or in an external file: the reference resolves to the schema found there (each target carries its own minLength)"
+//verif:harness id=C02 tier=quick,thorough witness=end bounds="references whose JSON pointer goes into an object: 14 fragments that exist and 11 whose array token is not an index of the array (signed spellings +0 -0 +1 -1, fractions, hexadecimal, beyond the end: loading fails), the existing ones being (the first / last / only member of allOf, oneOf, anyOf and of a parameter list, properties/p, items, properties/p/items, additionalProperties, a parameter's schema, a response's and a request body's media type schema, a schema below an operation of a path) x in the root document or in an external file: the reference resolves to the schema found there (each target carries its own minLength)"
 func verifH_C02_deep_fragments() {
 	mk := func(n int) string { return `{"type":"string","minLength":` + strconv.Itoa(n) + `}` }
 	body := `"paths":{"/a":{"get":{"parameters":[{"name":"p0","in":"query","schema":` + mk(20) + `},{"name":"p1","in":"query","schema":` + mk(21) + `}],"responses":{"200":{"description":"d","content":{"application/json":{"schema":` + mk(22) + `}}}}}}},` +
@@ -834,6 +834,10 @@ func verifH_C02_deep_fragments() {
 		{"/components/requestBodies/B/content/application~1json/schema", 12},
 		{"/paths/~1a/get/parameters/0/schema", 20}, {"/paths/~1a/get/parameters/1/schema", 21},
 		{"/paths/~1a/get/responses/200/content/application~1json/schema", 22},
+		// tokens that are not array indexes (want 0: loading must fail): signed spellings, fractions, beyond the end
+		{"/components/schemas/D/allOf/+0", 0}, {"/components/schemas/D/allOf/-0", 0}, {"/components/schemas/D/anyOf/+1", 0}, {"/components/schemas/D/anyOf/-1", 0},
+		{"/components/schemas/D/anyOf/3", 0}, {"/components/schemas/D/anyOf/1.0", 0}, {"/components/schemas/D/anyOf/1e0", 0}, {"/components/schemas/D/anyOf/0x1", 0},
+		{"/paths/~1a/get/parameters/+1/schema", 0}, {"/paths/~1a/get/parameters/-0/schema", 0}, {"/paths/~1a/get/parameters/2/schema", 0},
 	}
 	f := frags[verifChoose("fragment", len(frags))]
 	external := verifChoose("external", 2) == 1
@@ -861,6 +865,11 @@ func verifH_C02_deep_fragments() {
 		return nil, errors.New("no such file")
 	}
 	doc, err := loader.LoadFromDataWithPath([]byte(rootText), rootLoc)
+	if f.want == 0 {
+		verifAssert(err != nil && doc == nil, "C02 deep fragments: a pointer token that is not an index of the array makes loading fail")
+		verifReach("end")
+		return
+	}
 	verifAssert(err == nil && doc != nil, "C02 deep fragments: a reference into an existing object loads")
 	if err != nil || doc == nil {
 		return
